@@ -31,7 +31,11 @@ def make_app(problem):
             x, y = x.ravel(), y.ravel()
             keep = x * x + y * y < 0.3 ** 2
             x, y = x[keep], y[keep]
-            pa = get_particle_array(name='fluid', x=x, y=y, h=hdx * dx,
+            # smoothing length varies across the patch (a smooth bump of
+            # 1.8x): neighbours found through the *other* particle's radius
+            h = hdx * dx * (1.0 + 0.8 * np.exp(-((x - 0.1) ** 2 +
+                                                 (y + 0.05) ** 2) / 0.02))
+            pa = get_particle_array(name='fluid', x=x, y=y, h=h,
                                     m=rho0 * dx * dx, rho=rho0,
                                     u=-2.0 * x, v=2.0 * y)
             self.scheme.setup_properties([pa])
